@@ -187,22 +187,57 @@ def run_case(ns, mon, c):
                 call(ns, op, c, ns.Tensor((x64 * 0.5).astype(other)), None if extra_t is None else ns.Tensor(np.asarray(extra_t.data).astype(other) if extra_t.data.dtype.kind == "f" else extra_t.data.copy()))
         except Exception:
             pass
-    xt = ns.Tensor(x.copy(), requires_grad=True)
+    # the operand as a view (the op is applied directly to x.T / a strided slice, as in model code): same values, other memory layout
+    storage = ["plain", "transposed", "plain", "strided"][c["seed"] % 4] if x.ndim >= 2 else "plain"
+    xt = ns.Tensor(gen.as_storage(x, storage, None, {}), requires_grad=True)
     viol = []
-    counters = {f"cases:{op}": 1}
-    with np.errstate(all="ignore"):
+    counters = {f"cases:{op}": 1, f"storage:{storage}": 1}
+    # One case in four runs the way user code does: under NumPy's own error settings (the harness's errstate("ignore") would hide an op that only
+    # works when overflow is silent), after a few legal calls that overflow / divide by zero.  NumPy's error state is process-wide: a library
+    # call that leaves it changed breaks every later op that relies on inf arithmetic.
+    user_env = c["seed"] % 4 == 1
+    err0 = np.geterr()
+    if user_env:
+        import warnings
+        counters["user_environment_cases"] = 1
+        with warnings.catch_warnings():
+            warnings.simplefilter("ignore")
+            for pre in (lambda: ns.Tensor(np.array([1e4, 800.0], dtype=dt)).exp(), lambda: ns.Tensor(np.array([0.0, 1.0], dtype=dt)).log(),
+                        lambda: 1.0 / ns.Tensor(np.array([0.0, 2.0], dtype=dt)), lambda: ns.Tensor(np.array([1e300 if dt == np.float64 else 1e30], dtype=dt)) ** 3,
+                        lambda: ns.Tensor(np.array([1e4], dtype=dt), requires_grad=True).exp().sum().backward()):
+                try:
+                    pre()
+                except Exception:
+                    counters["prelude_calls_refused"] = counters.get("prelude_calls_refused", 0) + 1
+        if np.geterr() != err0:
+            viol.append(V("environment:numpy-error-state-changed", f"a library call left NumPy's process-wide error handling changed: {err0} -> {np.geterr()}"))
+    import contextlib, warnings as _w
+    ctx_ = contextlib.ExitStack()
+    if user_env:
+        cw = _w.catch_warnings(); ctx_.enter_context(cw); _w.simplefilter("ignore")
+    else:
+        ctx_.enter_context(np.errstate(all="ignore"))
+    with ctx_:
         try:
             out = call(ns, op, c, xt, extra_t)
         except Exception as e:
-            return {"viol": [V(sig + ":forward-raises", f"forward raised {type(e).__name__} on finite inputs with |x|<=1e4", error=str(e)[:200])] + mon.drain(),
+            np.seterr(**err0)
+            return {"viol": viol + [V(sig + ":forward-raises" + (":after-overflowing-calls" if user_env else ""), f"forward raised {type(e).__name__} on finite inputs with |x|<=1e4", error=str(e)[:200])] + mon.drain(),
                     "counters": counters}
         g = rng.standard_normal(out.shape) if out.shape else np.array(float(rng.uniform(0.5, 2)))
+        out_before = np.array(out.data, copy=True)
         try:
             out.backward(ns.Tensor(np.asarray(g, dtype=dt)))
             grad = xt.grad.data
         except Exception as e:
-            viol.append(V(sig + ":backward-raises", f"backward raised {type(e).__name__}", error=str(e)[:200]))
+            viol.append(V(sig + ":backward-raises" + (":after-overflowing-calls" if user_env else ""), f"backward raised {type(e).__name__}", error=str(e)[:200]))
             grad = None
+        if grad is not None and (out.data.shape != out_before.shape or not np.array_equal(out.data, out_before, equal_nan=True)):
+            viol.append(V(sig + ":value-changed-by-backward", "the result tensor no longer holds the value the forward returned after backward() ran"))
+    if np.geterr() != err0:
+        if not any(v["sig"].startswith("environment:") for v in viol):
+            viol.append(V("environment:numpy-error-state-changed", f"a library call left NumPy's process-wide error handling changed: {err0} -> {np.geterr()}"))
+        np.seterr(**err0)
     g64 = np.asarray(g, dtype=dt).astype(np.float64)
     with np.errstate(all="ignore"):
         val, gr = exact(op, x64, c, g64, extra)
@@ -252,4 +287,4 @@ def teardown(ns, mon):
 
 def finish(agg, tier):
     c = agg["counters"]
-    return [f"zero-events:{k}" for k in ("value_elements_judged", "gradient_elements_judged", "mpmath_crosschecks") if not c.get(k)]
+    return [f"zero-events:{k}" for k in ("value_elements_judged", "gradient_elements_judged", "mpmath_crosschecks", "user_environment_cases") if not c.get(k)]
